@@ -17,12 +17,19 @@ def main():
         if not line:
             continue
         t = json.loads(line)
+        dump = os.environ.get("VERIF_DUMP_AFTER")  # debugging aid: dump all thread stacks of a task that runs longer than this many seconds
+        if dump:
+            import faulthandler
+
+            faulthandler.dump_traceback_later(float(dump), exit=False, file=open(f"/var/tmp/verif_stacks_{os.getpid()}.log", "a"))
         try:
             mod, fn = t["fn"].split(":")
             f = getattr(importlib.import_module(mod), fn)
             r = f(**t.get("args", {}))
         except Exception as ex:
             r = {"error": f"{type(ex).__name__}: {ex}", "traceback": traceback.format_exc()[-3000:]}
+        if dump:
+            faulthandler.cancel_dump_traceback_later()
         real_stdout.write("@@RESULT@@" + json.dumps(r, default=str) + "\n")
         real_stdout.flush()
 
